@@ -3,7 +3,8 @@ package main
 // Concurrent part: two requests in flight on ONE middleware instance (package verifmc/ccpair). What encryptcookie
 // does for a request is a function of that request alone, so under every interleaving each request must receive
 // exactly the response it receives when served alone — in particular its own cookies encrypted under their own names.
-// Scheduling points: the Encryptor / Decryptor callbacks and the handler yield to the cooperative scheduler, plus any
+// Scheduling points: the Encryptor / Decryptor callbacks (on entry AND after the value is computed, before the
+// middleware stores it) and the handler yield to the cooperative scheduler, plus any
 // sync operation the middleware performs (shimmed through the overlay: none on the pinned tree). Ciphertexts carry a
 // random nonce, so responses are compared after decrypting every Set-Cookie value with the configured key.
 
@@ -31,11 +32,17 @@ func ccBuildEnc(except []string) func() fasthttp.RequestHandler {
 			Except: except,
 			Encryptor: func(v, k string) (string, error) {
 				verifrt.Yield("encryptor")
-				return encryptcookie.EncryptCookie(v, k)
+				out, err := encryptcookie.EncryptCookie(v, k)
+				// a second point AFTER the value exists and BEFORE the middleware copies it into the response:
+				// a result that still aliases shared scratch memory is overwritten by the other request here
+				verifrt.Yield("encryptor-returned")
+				return out, err
 			},
 			Decryptor: func(v, k string) (string, error) {
 				verifrt.Yield("decryptor")
-				return encryptcookie.DecryptCookie(v, k)
+				out, err := encryptcookie.DecryptCookie(v, k)
+				verifrt.Yield("decryptor-returned")
+				return out, err
 			},
 		}))
 		app.Get("/:who", func(c fiber.Ctx) error {
